@@ -344,3 +344,13 @@ spec("C02",
                   "points where a NaN reaches rand/mix are skipped (NaN payloads feed the hash)",
                   "the x86_64 instruction sequences themselves are covered by correspondence, not by proof; aarch64 cannot run here"],
      )
+
+spec("C05",
+     cmd="c05", count=dict(quick=800, thorough=15000),
+     vo_targets=["props/C05.vo"],
+     level="proof",
+     rule="random DAGs (1-30 ops, all opcodes except the bit-hash ones, every non-constant node exported), 4 points (3 tame, 1 with special values), unit-axis seeds on the first point and arbitrary non-unit seeds on the others; interpreter grad-slice results bit-for-bit against the model; per node: value lane vs point evaluator, and the f64 chain rule from the operand duals the evaluator itself reported (local obligation; skipped near ties / zeros / integers / poles / branch cuts and for magnitudes above 1e15), interpreter and JIT; Context::deriv of the last node evaluated at the point vs forward mode with unit seeds where the whole chain is differentiable; distinct_nontrivial = distinct arenas with > 2 exported nodes",
+     classify=classify_backend,
+     assumptions=["tolerance 2e-4 relative to the magnitude of the chain-rule terms for derivative lanes, 1e-4 for values, 2e-3 for the symbolic derivative (evaluated in f32)",
+                  "the derivative theorems over the reals (GradSound) are in progress; the theorem here covers the value lane for every tape"],
+     )
